@@ -24,9 +24,9 @@ def _staged(*stages):
         for name, fn in stages:
             if replay is not None and replay.get('input') is not None:
                 keys = set(replay['input'].keys())
-                if name == 'values' and 'spec' not in keys:
-                    continue
                 level = replay['input'].get('level')
+                if name == 'values' and 'spec' not in keys and level != 'store':
+                    continue
                 if name == 'sched' and 'case' not in keys and level not in ('falsy', 'nested-names', 'die-in-run'):
                     continue
                 if name == 'histories' and 'history' not in keys and level not in ('unreadable-entry', 'zero-duration', 'nested-names', 'second-interpreter'):
